@@ -372,6 +372,12 @@ func registerKeeperModels() {
 		}
 		m.SetG("bank", Store(bank, acct, bal))
 		m.SetG("supply", sup)
+		led := m.GetG("minted", ghostSorts["minted"])
+		row := Select(led, acct)
+		for _, p := range c.Small {
+			row = Store(row, p.Denom, Add(Select(row, p.Denom), p.Amt))
+		}
+		m.SetG("minted", Store(led, acct, row))
 		return IntLit(0)
 	}
 	invokeModels[ifBank+".BurnCoins"] = func(m *Machine, _ *Frame, _ *ssa.CallCommon, a []Val) Val {
@@ -391,6 +397,12 @@ func registerKeeperModels() {
 		ok := And(conds...)
 		m.SetG("bank", Ite(ok, Store(bank, acct, bal), bank))
 		m.SetG("supply", Ite(ok, sup, m.Supply()))
+		led := m.GetG("burned", ghostSorts["burned"])
+		row := Select(led, acct)
+		for _, p := range c.Small {
+			row = Store(row, p.Denom, Add(Select(row, p.Denom), p.Amt))
+		}
+		m.SetG("burned", Ite(ok, Store(led, acct, row), led))
 		return Ite(ok, IntLit(0), IntLit(998))
 	}
 }
